@@ -43,6 +43,18 @@ var c01FileCases = []faCase{
 		patch: "@@\nvar m identifier\n@@\n-m.Lock()\n ...\n m.Unlock()\n",
 		minus: "package p\n\nfunc f() {\n\tbefore1()\n\tbefore2()\n\t⟦«m:mu».Lock()\n\t«d1:work(1)»\n\t«m:mu».Unlock()⟧\n\tafter()\n}\n\nfunc g(k int) {\n\tswitch k {\n\tcase 1:\n\t\tpre()\n\t\t⟦«m:rw».Lock()\n\t\t«d1:a(); b()»\n\t\t«m:rw».Unlock()⟧\n\t}\n}\n",
 		plus:  "package p\n\nfunc f() {\n\tbefore1()\n\tbefore2()\n\t⟦«d1»\n\t«m».Unlock()⟧\n\tafter()\n}\n\nfunc g(k int) {\n\tswitch k {\n\tcase 1:\n\t\tpre()\n\t\t⟦«d1»\n\t\t«m».Unlock()⟧\n\t}\n}\n"},
+	{name: "for-dots-headers-for",
+		patch: "@@\nvar x expression\n@@\n for ... {\n   ...\n-  log(x)\n+  trace(x)\n   ...\n }\n",
+		minus: "package p\n\nfunc f0(xs []int, ch chan int, n, i, v int) {\n\t⟦for {\n\t\t«d2:pre()»\n\t\tlog(«x:1»)\n\t}⟧\n}\n\nfunc f1(xs []int, ch chan int, n, i, v int) {\n\t⟦for «d1:i < n» {\n\t\t«d2:pre()»\n\t\tlog(«x:1»)\n\t}⟧\n}\n\nfunc f2(xs []int, ch chan int, n, i, v int) {\n\t⟦for «d1:i := 0; i < n; i++» {\n\t\t«d2:pre()»\n\t\tlog(«x:1»)\n\t}⟧\n}\n\nfunc f3(xs []int, ch chan int, n, i, v int) {\n\t⟦for «d1:; ; i++» {\n\t\t«d2:pre()»\n\t\tlog(«x:1»)\n\t}⟧\n}\n",
+		plus:  "package p\n\nfunc f0(xs []int, ch chan int, n, i, v int) {\n\t⟦for {\n\t\t«d2»\n\t\ttrace(«x»)\n\t}⟧\n}\n\nfunc f1(xs []int, ch chan int, n, i, v int) {\n\t⟦for «d1» {\n\t\t«d2»\n\t\ttrace(«x»)\n\t}⟧\n}\n\nfunc f2(xs []int, ch chan int, n, i, v int) {\n\t⟦for «d1» {\n\t\t«d2»\n\t\ttrace(«x»)\n\t}⟧\n}\n\nfunc f3(xs []int, ch chan int, n, i, v int) {\n\t⟦for «d1» {\n\t\t«d2»\n\t\ttrace(«x»)\n\t}⟧\n}\n"},
+	{name: "for-dots-headers-range",
+		patch: "@@\nvar x expression\n@@\n for ... {\n   ...\n-  log(x)\n+  trace(x)\n   ...\n }\n",
+		minus: "package p\n\nfunc f0(xs []int, ch chan int, n, i, v int) {\n\t⟦for «d1:range ch» {\n\t\t«d2:pre()»\n\t\tlog(«x:1»)\n\t}⟧\n}\n\nfunc f1(xs []int, ch chan int, n, i, v int) {\n\t⟦for «d1:i := range xs» {\n\t\t«d2:pre()»\n\t\tlog(«x:1»)\n\t}⟧\n}\n\nfunc f2(xs []int, ch chan int, n, i, v int) {\n\t⟦for «d1:i, v := range xs» {\n\t\t«d2:pre()»\n\t\tlog(«x:1»)\n\t}⟧\n}\n\nfunc f3(xs []int, ch chan int, n, i, v int) {\n\t⟦for «d1:i, v = range xs» {\n\t\t«d2:pre()»\n\t\tlog(«x:1»)\n\t}⟧\n}\n",
+		plus:  "package p\n\nfunc f0(xs []int, ch chan int, n, i, v int) {\n\t⟦for «d1» {\n\t\t«d2»\n\t\ttrace(«x»)\n\t}⟧\n}\n\nfunc f1(xs []int, ch chan int, n, i, v int) {\n\t⟦for «d1» {\n\t\t«d2»\n\t\ttrace(«x»)\n\t}⟧\n}\n\nfunc f2(xs []int, ch chan int, n, i, v int) {\n\t⟦for «d1» {\n\t\t«d2»\n\t\ttrace(«x»)\n\t}⟧\n}\n\nfunc f3(xs []int, ch chan int, n, i, v int) {\n\t⟦for «d1» {\n\t\t«d2»\n\t\ttrace(«x»)\n\t}⟧\n}\n"},
+	{name: "branch-label-absent",
+		patch: "@@\nvar l identifier\n@@\n-break l\n+continue l\n",
+		minus: "package p\n\nfunc f(c bool) {\nout:\n\tfor {\n\t\tfor {\n\t\t\t⟦break «l:out»⟧\n\t\t}\n\t\tif c {\n\t\t\tbreak\n\t\t}\n\t\tswitch {\n\t\tcase c:\n\t\t\tcontinue\n\t\t}\n\t}\n}\n",
+		plus:  "package p\n\nfunc f(c bool) {\nout:\n\tfor {\n\t\tfor {\n\t\t\t⟦continue «l»⟧\n\t\t}\n\t\tif c {\n\t\t\tbreak\n\t\t}\n\t\tswitch {\n\t\tcase c:\n\t\t\tcontinue\n\t\t}\n\t}\n}\n"},
 	{name: "stmt-in-case-and-select",
 		patch: "@@\nvar x identifier\n@@\n-x.Lock()\n+lock(x)\n",
 		minus: "package p\n\nfunc f(c chan int) {\n\tswitch {\n\tcase true:\n\t\t⟦«x:mu».Lock()⟧\n\t}\n\tselect {\n\tcase <-c:\n\t\tpre()\n\t\t⟦«x:rw».Lock()⟧\n\t}\n}\n",
